@@ -632,3 +632,5 @@ def check(case: dict[str, Any], rec: Any) -> None:
 
 
 FINDINGS: dict[str, Any] = {}
+
+LEVEL_NOTE += ' Rounds 13-14: any exception other than ResamplingError out of resample() is a violation; sinks that take the sample late; actor tier with an ending source and late repeated requests.'
